@@ -474,6 +474,23 @@ pub fn sched(input: &str, out: &mut impl std::io::Write) {
         writeln!(out, "Q {} => {}", p.join(" "), res).unwrap();
         dump(out, &used);
     }
+    // statistics at quiescence: every completed call performed exactly one lookup (C15 under concurrency)
+    let resets = input.lines().any(|l| l.split_whitespace().nth(1) == Some("sreset"));
+    if !resets {
+        for f in &used {
+            if corpus::flavour(*f) == 't' {
+                continue;
+            }
+            let calls = input.lines().filter(|l| {
+                let t: Vec<&str> = l.split_whitespace().collect();
+                t.len() > 2 && matches!(t[0], "P" | "A" | "B" | "C" | "Q") && t[1] == "call" && t[2].parse::<usize>().ok() == Some(*f)
+            }).count();
+            match cachelito_core::stats_registry::get(corpus::cache_name(*f)) {
+                Some(s) => writeln!(out, "STATS {} {} {} {}", f, s.hits(), s.misses(), calls).unwrap(),
+                None => writeln!(out, "STATS {} none none {}", f, calls).unwrap(),
+            }
+        }
+    }
     writeln!(out, "END").unwrap();
     set_observer(None);
 }
